@@ -280,6 +280,43 @@ def main(tier, seed):
                 why = "an insert whose fsync failed read existing data: " + str([f"{e[1]}.{e[2]}{e[3] or ''}" for e in ev if is_read_call(e)][:4])
             if why and len(direct_bad) < 4:
                 direct_bad.append({"kind": "failing-input", "why": why, "database_size": size, "auto_index": auto, "outcome": rec["out"], "calls": [f"{e[1]}.{e[2]}" for e in ev][:40]})
+    # (e) the file has GROWN behind this object's back - a second TinyFlux object on the same file (another session of the same user) appended rows
+    # and was closed - and then this object inserts: still append-only, no existing data read, the same calls however many rows arrived
+    foreign_calls = {}
+    for grown in (3, 50, 600):
+        for auto in (True, False):
+            g = dbgen.Gen(seed + 9700 + grown, {})
+            g.ids = 1
+            pts = g.points_batch(5, in_order=True)
+            hist = [("insert", pts, None, "multiple"), ("count", ("noop", "tags"), None)]
+            t_last = max(p["time"] for p in pts)
+            arrived = [g.point(t_last + (j + 1) * dbgen.SEC) for j in range(grown)]
+            newp = g.point(t_last + (grown + 5) * dbgen.SEC)
+
+            def foreign(s, _arrived=arrived):
+                other = tf.TinyFlux(s.path, auto_index=False)
+                other.insert_multiple([M.real_point(tf, p) for p in _arrived])
+                other.close()
+                return None
+            rec = iotie.recorded_run(tf, str(ck.work / f"frn{grown}{int(auto)}"), hist, ("insert", [newp], None), auto, pre_hook=foreign)
+            raising_runs += 1
+            bb, ab, ev = rec["before_bytes"] or b"", rec["after_bytes"] or b"", rec["events"]
+            foreign_calls.setdefault(auto, {})[grown] = len(ev)
+            why = None
+            if rec["out"] != ("nat", 1):
+                why = f"insert returned {rec['out']}"
+            elif not (ab.startswith(bb) and len(ab) > len(bb)):
+                why = "after another object appended to the file, the previous file content is not a byte-for-byte proper prefix of the new content"
+            elif any(is_read_call(e) for e in ev):
+                why = "after another object appended to the file, insert read existing data: " + str([f"{e[1]}.{e[2]}{e[3] or ''}" for e in ev if is_read_call(e)][:4])
+            if why and len(direct_bad) < 4:
+                direct_bad.append({"kind": "failing-input", "why": why, "rows_appended_by_another_object": grown, "auto_index": auto,
+                                   "state": "db holds 5 points and has answered a count; other = TinyFlux(same path); other.insert_multiple(rows); other.close(); then db.insert(point)",
+                                   "calls": [f"{e[1]}.{e[2]}" for e in ev][:40]})
+    for auto, dct in foreign_calls.items():
+        if len(set(dct.values())) > 1 and len(direct_bad) < 4:
+            direct_bad.append({"kind": "failing-input", "why": "the number of I/O calls of an insert depends on how many rows another object appended to the file before it",
+                               "auto_index": auto, "calls_by_rows_appended": dct})
     for label, table in (("through an older handle object", handle_calls), ("whose fsync fails", fsync_calls)):
         for auto, dct in table.items():
             if len(set(dct.values())) > 1 and len(direct_bad) < 4:
